@@ -28,10 +28,10 @@ type Doc struct {
 	Kind    string         `json:"kind"`
 	Ns      string         `json:"ns"`
 	Name    string         `json:"name"`
-	Body    map[string]any `json:"body,omitempty"`    // create: object fields besides identity
-	ObjAs   string         `json:"obj_as,omitempty"`  // inline json-string yaml-string
-	Merge   map[string]any `json:"merge,omitempty"`   // merge patch
-	JSONP   []any          `json:"jsonp,omitempty"`   // json patch
+	Body    map[string]any `json:"body,omitempty"`     // create: object fields besides identity
+	ObjAs   string         `json:"obj_as,omitempty"`   // inline json-string yaml-string
+	Merge   map[string]any `json:"merge,omitempty"`    // merge patch
+	JSONP   []any          `json:"jsonp,omitempty"`    // json patch
 	PatchAs string         `json:"patch_as,omitempty"` // inline string
 	JQ      string         `json:"jq,omitempty"`
 	Sub     string         `json:"sub,omitempty"`
